@@ -4,6 +4,7 @@ from __future__ import annotations
 import glob
 import json
 import math
+import re
 import os
 from fractions import Fraction as Fr
 
@@ -564,12 +565,29 @@ def corpus():
     return out
 
 
+NEAR_ONE = [0.9995, 0.99999, 1.0005, 1.00001, 0.999, 1.001, 1.0 - 2.0 ** -20, 1.0 + 2.0 ** -20, 0.9999999, 0.99]
+
+
+def weight_case(rng):
+    """`weight times the value of the antecedent` for weights next to 1, on either side of the library's comparison tolerance
+    (1e-3): a weight that is not 1 is applied, however close to 1 it is (drawn after the other streams)"""
+    while True:
+        c = make_case(rng)
+        if c is not None and c["kind"] == "wf":
+            break
+    w = rng.choice(NEAR_ONE)
+    c["text"] = re.sub(r" with [-+.\deE]+$", "", c["text"]) + f" with {w!r}"
+    c["weight"] = w
+    return c
+
+
 def correspond(ctx):
     st = ctx.stats
     mism = []
     cs = corpus() + [make_case(ctx.rng) for _ in range(ctx.scale(2500, 30000))]
     # rule objects with a history (drawn after the main stream): the model reads the present text only
     cs += [history_case(ctx.rng) for _ in range(ctx.scale(250, 3000))]
+    cs += [weight_case(ctx.rng) for _ in range(ctx.scale(120, 1500))]
     outs = ctx.driver.eval([model_line(c) for c in cs])
     for idx, (case, o) in enumerate(zip(cs, outs)):
         st.count(f"depth{depth_of(case['tree'])}")
@@ -645,7 +663,7 @@ def correspond(ctx):
 
 def search(ctx):
     for c in corpus() + [make_case(ctx.rng) for _ in range(ctx.scale(3000, 20000))] + \
-            [history_case(ctx.rng) for _ in range(ctx.scale(300, 2000))]:
+            [history_case(ctx.rng) for _ in range(ctx.scale(300, 2000))] + [weight_case(ctx.rng) for _ in range(200)]:
         ok, d = oracle(c)
         if not ok:
             return [(c, d)]
